@@ -649,6 +649,9 @@ func (ls *LState) raiseError(level int, format string, args ...interface{}) {
 }
 
 func (ls *LState) findLocal(frame *callFrame, no int) string {
+	if no < 1 {
+		return ""
+	}
 	fn := frame.Fn
 	if !fn.IsG {
 		if name, ok := fn.LocalName(no, frame.Pc-1); ok {
